@@ -125,6 +125,24 @@ impl<'a, 'b> SurfGen<'a, 'b> {
     }
 
     fn atomic(&mut self, scope: &[VarId]) -> Goal {
+        // two scalar literals compared with each other (the same value or different ones)
+        if self.s.flag(24) {
+            self.kinds_seen.insert("literal-against-literal");
+            let a = self.literal();
+            let b = if self.s.flag(170) { a.clone() } else { self.literal() };
+            return if self.s.flag(100) { Goal::Diseq(a, b) } else { Goal::Eq(a, b) };
+        }
+        // a long list literal, proper or with a tail after the `|`
+        if self.s.flag(12) {
+            self.kinds_seen.insert("long-list-literal");
+            let n = 20 + self.s.below(50);
+            let items: Vec<Term> = (0..n).map(|i| Term::Int((i % 7) as i64)).collect();
+            let u = self.usable(scope);
+            let tail = if self.s.flag(150) && !u.is_empty() { Term::Var(u[self.s.below(u.len())]) } else if self.s.flag(128) { Term::Nil } else { self.literal() };
+            let t = Term::improper(items, tail);
+            let l = if !u.is_empty() { Term::Var(u[self.s.below(u.len())]) } else { Term::Nil };
+            return Goal::Eq(l, t);
+        }
         let u = self.usable(scope);
         let l = if !u.is_empty() && self.s.flag(150) { Term::Var(u[self.s.below(u.len())]) } else { self.arg(scope) };
         let r = self.arg(scope);
@@ -293,6 +311,7 @@ pub fn gen_c14(s: &mut Source) -> (Program, Names, Vec<&'static str>) {
     g.names.cond_everywhere = g.s.flag(60);
     g.names.isize_suffix = g.s.flag(60);
     g.names.lterm_args = g.s.flag(90);
+    g.names.spellings = g.s.flag(100);
     let mut scope: Vec<VarId> = (0..nq as VarId).collect();
     let mut body = g.goals(&mut scope, 0, 1);
     // distinguishing tail: q_i == marker_i for the query variables that are not moved, inside a
@@ -473,8 +492,17 @@ pub fn gen_c13(s: &mut Source) -> (Program, Names, Vec<&'static str>) {
         g.kinds_seen.insert("pattern-variable-shadows-outer");
     }
     // the matched term: a query variable, or a list of two
-    let two = g.s.flag(60);
-    let matched = if two { Term::list(vec![Term::Var(0), Term::Var(1)]) } else { Term::Var(0) };
+    // (also list literals that mention variables only at nesting depth >= 2)
+    let matched = match g.s.weighted(&[9, 3, 1, 1, 1]) {
+        0 => Term::Var(0),
+        1 => Term::list(vec![Term::Var(0), Term::Var(1)]),
+        2 => Term::list(vec![Term::list(vec![Term::Var(0)]), Term::Var(1)]),
+        3 => Term::list(vec![Term::Var(1), Term::list(vec![Term::Var(0), Term::Int(1)])]),
+        _ => Term::list(vec![Term::list(vec![Term::list(vec![Term::Var(1)])]), Term::Var(0)]),
+    };
+    if !matches!(matched, Term::Var(_)) {
+        g.kinds_seen.insert("matched-term-is-a-list-literal");
+    }
     // with weight 0.6 make a match likely: bind the matched term to an instance of one of the
     // patterns (pattern variables replaced by outer variables / literals), as the first goal
     if g.s.flag(154) && !arms.is_empty() {
@@ -627,6 +655,31 @@ pub fn gen_c15(s: &mut Source) -> (Program, Names, Vec<&'static str>) {
                             body.push(Goal::Diseq(Term::Var(a), Term::Var(b)));
                         }
                         arms.push(Arm { patterns: vec![pat], body });
+                    }
+                    // an arm with two alternatives of which only the second binds a name that is
+                    // also the name of an outer variable: in that alternative the name must denote
+                    // a new variable, not the outer one (the body mentions neither)
+                    let others: Vec<VarId> = ids.iter().copied().filter(|v| *v != t).collect();
+                    if g.s.flag(110) && !others.is_empty() {
+                        let o2 = others[g.s.below(others.len())];
+                        let oname = g.names.name(o2, nq);
+                        if oname != "h" && oname != tname {
+                            let (a1, a2, b2) = (g.fresh_id(), g.fresh_id(), g.fresh_id());
+                            g.names.names.insert(a1, "h".to_string());
+                            g.names.names.insert(a2, "h".to_string());
+                            g.names.names.insert(b2, oname);
+                            let p1 = Term::list(vec![Term::Var(a1)]);
+                            let p2 = if g.s.flag(128) { Term::list(vec![Term::Var(a2), Term::Var(b2)]) } else { Term::list(vec![Term::Var(b2), Term::Var(a2), Term::Int(1)]) };
+                            let body: Vec<Goal> = match others.iter().find(|v| **v != o2) {
+                                Some(o1) if g.s.flag(128) => vec![Goal::Eq(Term::Var(*o1), Term::Int(5))],
+                                _ => vec![],
+                            };
+                            let arm = Arm { patterns: if g.s.flag(200) { vec![p1, p2] } else { vec![p2, p1] }, body };
+                            let at = g.s.below(arms.len() + 1);
+                            arms.insert(at, arm);
+                            g.kinds_seen.insert("alternative-binds-a-name-of-an-outer-variable");
+                            g.kinds_seen.insert("name-shadows-outer-binding");
+                        }
                     }
                     out.push(Goal::Match(MatchKind::Match, Term::Var(t), arms));
                 }
